@@ -34,6 +34,7 @@ type caseRun struct {
 	Forwards    int
 	Drops       int
 	Copies      int
+	Untyped     string   // C13: the same program with some cuts spelled out inline (runs unchecked only)
 	RefProblem  string   // reference semantics got stuck / ran out of budget / error
 	Feats       []string
 	Seed        uint64
@@ -125,9 +126,15 @@ func describeRun(p *ast.Program, origin string, feats map[string]int, refAccepts
 // genRunCase draws a runnable program. withMutants: also single-edit mutants (the caller decides
 // what to do with those the reference rejects).
 func genRunCase(rt *rapid.T, h *harness.H, mutantPct int) *caseRun {
+	c, _, _ := genRunCaseP(rt, h, mutantPct)
+	return c
+}
+
+// genRunCaseP also returns the program (nil for a mutant) and its generator.
+func genRunCaseP(rt *rapid.T, h *harness.H, mutantPct int) (*caseRun, *ast.Program, *gen.ProgGen) {
 	p, g := genProgramOpt(rt, h, true)
 	if p == nil {
-		return nil
+		return nil, nil, g
 	}
 	d := gen.D{T: rt}
 	seed := rapid.Uint64Range(1, 1<<40).Draw(rt, "cfgseed")
@@ -135,14 +142,14 @@ func genRunCase(rt *rapid.T, h *harness.H, mutantPct int) *caseRun {
 		kind := d.Of(gen.MutationKinds, "mutation")
 		q, what, ok := d.Mutate(p, kind)
 		if !ok {
-			return nil
+			return nil, nil, g
 		}
 		v, _ := refcheck.Program(q, true)
 		if v.Unknown {
 			h.S.Count("reference_unknown")
-			return nil
+			return nil, nil, g
 		}
-		return describeRun(q, "mutant: "+kind+": "+what, g.Feat, v.Accept, seed)
+		return describeRun(q, "mutant: "+kind+": "+what, g.Feat, v.Accept, seed), nil, g
 	}
 	c := describeRun(p, "g-prog", g.Feat, true, seed)
 	for _, f := range c.Feats {
@@ -151,7 +158,7 @@ func genRunCase(rt *rapid.T, h *harness.H, mutantPct int) *caseRun {
 	if c.RefProblem != "" {
 		h.S.Count("reference_semantics_problem:" + strings.SplitN(c.RefProblem, ":", 2)[0])
 	}
-	return c
+	return c, p, g
 }
 
 func briefRun(o runOut) string {
